@@ -107,12 +107,19 @@ func c20Script(s *c20State, ctx context.Context, kind int) {
 
 const c20Kinds = 9
 
+var c20Fixed []int // fixed scripts instead of chosen ones
+
 func c20Run(g int, n int) {
 	s := &c20State{n: n}
 	ctx := With(context.Background(), n)
 	prev := 0
 	for i := 0; i < g; i++ {
-		kind := nondet.Choice("script"+strconv.Itoa(i), c20Kinds)
+		kind := 0
+		if c20Fixed != nil {
+			kind = c20Fixed[i]
+		} else {
+			kind = nondet.Choice("script"+strconv.Itoa(i), c20Kinds)
+		}
 		// goroutines are interchangeable: explore script multisets, not sequences
 		nondet.Assume(kind >= prev)
 		prev = kind
@@ -137,6 +144,14 @@ func c20Run(g int, n int) {
 func VerifC20Two() {
 	n := 1 + nondet.Choice("limit", 2)
 	c20Run(2, n)
+}
+
+// VerifC20ReleaseRace: two plain users and one holder that is released from
+// another goroutine while it is temporarily released, limit 1 (the smallest
+// configuration in which a misplaced token shows).
+func VerifC20ReleaseRace() {
+	c20Fixed = []int{0, 0, 6}
+	c20Run(3, 1)
 }
 
 // VerifC20Three: 3 goroutines, limit 1 or 2.
